@@ -130,3 +130,39 @@ Definition check_sum (c : list Z * Z * bool * Z) : bool :=
   let '(syms, capmax, eof, want) := c in
   let nm := Nat.pow 2 (Nat.pred (length syms)) in
   all_masks_sum capmax eof syms nm 0 =? want.
+
+(* ---- BoundIO alone: (maxbytes, writes, buffer after each write) *)
+Fixpoint bound_trace (mb : Z) (buf : bytes) (ws : list bytes) : list bytes :=
+  match ws with
+  | [] => []
+  | w :: r => let b := bound_write mb buf w in b :: bound_trace mb b r
+  end.
+Definition check_boundio (c : Z * list bytes * list bytes) : bool :=
+  let '(mb, ws, want) := c in
+  list_eqb zlist_eqb (bound_trace mb [] ws) want.
+
+(* ---- byte-level cuts of one stream: every single cut, and every pair of cuts
+   at multiples of `stride`; one weighted checksum over all those runs *)
+Definition cut_frags (s : bytes) (c1 c2 : nat) : list bytes :=
+  if Nat.eqb c1 c2 then [firstn c1 s; skipn c1 s]
+  else [firstn c1 s; firstn (c2 - c1) (skipn c1 s); skipn c2 s].
+
+Definition cut_pairs (n stride : nat) : list (nat * nat) :=
+  map (fun c => (c, c)) (seq 1 (n - 1)) ++
+  flat_map (fun c1 => flat_map (fun c2 =>
+      if Nat.ltb c1 c2 && Nat.eqb (Nat.modulo c1 stride) 0 && Nat.eqb (Nat.modulo c2 stride) 0
+      then [(c1, c2)] else []) (seq 1 (n - 1))) (seq 1 (n - 1)).
+
+Fixpoint cuts_sum (capmax : Z) (s : bytes) (l : list (nat * nat)) (i : Z) : Z :=
+  match l with
+  | [] => 0
+  | (c1, c2) :: r =>
+    (i + 1) * (match trace_ser begin_token end_token capmax tr_id None init_d [] (cut_frags s c1 c2) with
+               | Some t => wsum 0 t | None => -1 end)
+    + cuts_sum capmax s r (i + 1)
+  end.
+
+(* (stream, capmax, stride, checksum) *)
+Definition check_cuts (c : bytes * Z * nat * Z) : bool :=
+  let '(s, capmax, stride, want) := c in
+  cuts_sum capmax s (cut_pairs (length s) stride) 0 =? want.
